@@ -509,6 +509,7 @@ def run(ctx):
   shared.rule_performer_simulation(ctx, 'C01.R14')
   shared.rule_graph_rewrite_simulation(ctx, 'C01.R15')
   shared.rule_pipeline_simulation(ctx, 'C01.R16', 'whole pipeline on label models: the quantized graph is topologically valid, every tensor has one producer, quantized types and parameters go together, inserted ops convert between their neighbours\' types')
+  shared.rule_blockwise_replacement(ctx, 'C01.R18')
   from sa.rules import c19  # pylint: disable=g-import-not-at-top
   ctx.rule('C01.R13', 'graph info: every tensor records its own id, its producer and one consumer entry per consuming operator', floor=1)
   gi = ctx.repo.func(f'{c19.TIG}._tensor_info_generator')
